@@ -30,23 +30,24 @@ def sym(f, stable):
     return "[f |-> %d, xi |-> 2000, sh |-> 1, cj |-> %s, cov |-> 1]" % (f, "TRUE" if stable else "FALSE")
 
 
-def ex_tla(req, kind, ords):
+def ex_tla(req, kind, ords, rtol=RTOL):
     return '[req |-> <<%s>>, kind |-> "%s", ords |-> <<%s>>, rtol |-> <<%d, %d>>]' % (
-        ", ".join(map(str, req)), kind, ", ".join(map(str, ords)), *RTOL)
+        ", ".join(map(str, req)), kind, ", ".join(map(str, ords)), *rtol)
 
 
-def ex_sets(nreq_list, nc, lists=True):
+def ex_sets(nreq_list, nc, lists=True, rtol=RTOL, find_min=True):
     out = []
     for n in nreq_list:
         req = REQ[:n]
-        out.append(ex_tla(req, "find_min", [0] * n))
+        if find_min:
+            out.append(ex_tla(req, "find_min", [0] * n, rtol))
         for o in range(nc):
-            out.append(ex_tla(req, "int", [o] * n))
+            out.append(ex_tla(req, "int", [o] * n, rtol))
         if lists and n >= 2:
             import itertools
             for ords in itertools.product(range(nc), repeat=n):
                 if len(set(ords)) > 1:
-                    out.append(ex_tla(req, "list", list(ords)))
+                    out.append(ex_tla(req, "list", list(ords), rtol))
     return out
 
 
@@ -56,13 +57,20 @@ def configs(tier):
                                    sym(FAR[0], True), sym(10003, True)])
     a4 = "{NaN, %s}" % ", ".join([sym(NEAR[0], True), sym(NEAR[1], True), sym(FAR[0], True)])
     a6 = "{NaN, %s}" % ", ".join([sym(NEAR[0], True), sym(NEAR[1], True), sym(NEAR[2], True), sym(FAR[0], True), sym(FAR[1], False)])
+    # a user tolerance (5 %) different from every default in the library, with a pole 2 % off the request: close under the
+    # user's tolerance, not close under 1 % (one request: 16000 is 60 % away).  Explicit orders only: the automatic order selection of SSI_mpe
+    # compares with an absolute band of +- rtol Hz, an ambiguity of the statement that stays unjudged (DESIGN 7.2)
+    aw = "{NaN, %s}" % ", ".join([sym(10200, True), sym(10200, False), sym(NEAR[0], True), sym(FAR[0], True)])
+    wide = dict(name="t2x2wide", nr=2, nc=2, tables=f"[1..2 -> [1..2 -> {aw}]]", exs=ex_sets([1], 2, rtol=(1, 20), find_min=False))
     if tier == "quick":
         return [
+            wide,
             dict(name="t2x2", nr=2, nc=2, tables=f"[1..2 -> [1..2 -> {a7}]]", exs=ex_sets([1, 2], 2)),
             dict(name="t3x2", nr=3, nc=2, tables=f"[1..3 -> [1..2 -> {a4}]]", exs=ex_sets([2], 2)),
             dict(name="t2x3", nr=2, nc=3, tables=f"[1..2 -> [1..3 -> {a4}]]", exs=ex_sets([2], 3, lists=False)),
         ]
     return [
+        wide,
         dict(name="t2x2", nr=2, nc=2, tables=f"[1..2 -> [1..2 -> {a7}]]", exs=ex_sets([1, 2], 2)),
         dict(name="t3x2", nr=3, nc=2, tables=f"[1..3 -> [1..2 -> {a5}]]", exs=ex_sets([1, 2], 2)),
         dict(name="t2x3", nr=2, nc=3, tables=f"[1..2 -> [1..3 -> {a5}]]", exs=ex_sets([2], 3)),
@@ -77,6 +85,15 @@ def judged(tab, ex):
     if ex["kind"] == "find_min":
         return True
     return all(any(not pw.is_nan(tab[r][c]) for r in range(len(tab))) for c in cols)
+
+
+def _earlier_extraction(alg, req, rtol):
+    """history: an extraction with order 'find_min' on the same object before the judged one - mpe reads the pole tables
+    of the run, it must not alter them (whether the earlier call finds a qualifying order or raises is not judged here)"""
+    try:
+        alg.mpe(sel_freq=list(req), order="find_min", rtol=rtol)
+    except Exception:  # noqa: BLE001
+        pass
 
 
 def run_site(site, ct, lab, ex, unc):
@@ -101,6 +118,7 @@ def run_site(site, ct, lab, ex, unc):
         alg._set_data(np.zeros((8, 3)), fs=200.0)
         kw = dict(Fn_poles_cov=cov["Fn_cov"], Xi_poles_cov=cov["Xi_cov"], Phi_poles_cov=cov["Phi_cov"]) if unc else {}
         alg.result = SSIResult(Fn_poles=ct["Fn"].copy(), Xi_poles=ct["Xi"].copy(), Phi_poles=ct["Phi"].copy(), Lab=lab.copy(), **kw)
+        _earlier_extraction(alg, req, rtol)
         alg.mpe(sel_freq=list(req), order=order, rtol=rtol)
         r = alg.result
         return r.Fn, r.Xi, r.Phi, r.order_out, r.Fn_cov, r.Xi_cov, r.Phi_cov
@@ -108,6 +126,7 @@ def run_site(site, ct, lab, ex, unc):
         alg = A.pLSCF(name="x", ordmax=ct["Fn"].shape[1])
         alg._set_data(np.zeros((8, 3)), fs=200.0)
         alg.result = pLSCFResult(Fn_poles=ct["Fn"].copy(), Xi_poles=ct["Xi"].copy(), Phi_poles=ct["Phi"].copy(), Lab=lab.copy())
+        _earlier_extraction(alg, req, rtol)
         alg.mpe(sel_freq=list(req), order=order, rtol=rtol)
         r = alg.result
         return r.Fn, r.Xi, r.Phi, r.order_out, None, None, None
@@ -204,7 +223,7 @@ def run(ctx):
                 "SSIcov.mpe and pLSCF.mpe; non-trivial: requests of which some but not all are answerable at the given "
                 "orders, and every find_min request with a qualifying order; distinct by (config, table, request)")
     ctx.trusted = ["TLC", "harness/poles_world.py", "bit equality of returned values with the injected cell"]
-    ctx.assumptions = ["generated frequencies are within rtol/10 (and 0.004 Hz) of a request or >= 10 rtol away from all",
+    ctx.assumptions = ["generated frequencies are within 0.4 rtol of a request (rtol/10 and 0.004 Hz in all configurations but 'wide') or >= 10 rtol away from all",
                        "orders without any retained pole and find_min requests without a qualifying order are not judged",
                        "'exactly one stable pole' means one frequency value (conjugate twins share it)"]
     for c in configs(ctx.tier):
